@@ -99,8 +99,9 @@ pub fn base_paths(base: &Base, s: &Scratch) -> (PathBuf, PathBuf) {
 /// file and directory names that occur in the tree (used as literal texts of generated globs)
 pub fn tree_names(tree: &TreeSpec) -> Vec<String> {
     // (names that are not valid UTF-8 cannot be spelled in a glob; wildcards reach them through
-    // their lossy text)
-    let mut v: Vec<String> = tree.nodes.iter().filter_map(|n| n.path.rsplit('/').next().map(String::from)).filter(|s| !s.contains(RAW)).collect();
+    // their lossy text.  Names with a backslash — an ordinary character on Unix — are left to the
+    // wildcards too: in a glob the backslash is the escape)
+    let mut v: Vec<String> = tree.nodes.iter().filter_map(|n| n.path.rsplit('/').next().map(String::from)).filter(|s| !s.contains(RAW) && !s.contains('\\')).collect();
     v.push("t".into());
     v.sort();
     v.dedup();
